@@ -59,7 +59,7 @@ claim("C10", "model_checking",
 AUTO_NOTE = ("Trusted: the model of inotify/fsnotify delivery (from reading fsnotify 1.5.1), the gate hook placement, the 10 s/2 s timing windows, TLC. "
              "Liveness is checked under weak fairness on delivery, handler and queries; on the code, convergence is observed by polling.")
 claim("C11", "model_checking",
-      "CacheAuto is a TLA+ model of directories, kernel inotify queues, the fsnotify reader, the watcher goroutine and queries; TLC checks convergence (liveness under fairness) over every history of <=4/6 operations of the statement's list at every interleaving. Seeded behaviours and the counter-example schedules the model yields when a repair is switched off are executed on a real auto-refresh cache at three pacings (free, the recorded schedule enforced by a blocking gate at watch.prelock, watcher held to the end) and the query API is polled until it equals a fresh cache. Each execution at the first two pacings is recorded through the hooks (file-system operations, receives, handler and operation snapshots of tracked map / directories in error / indexed content) and validated by TLC against CacheAutoTrace: some behaviour of the model must explain every event and snapshot.",
+      "CacheAuto is a TLA+ model of directories, kernel inotify queues, the fsnotify reader, the watcher goroutine - whose critical section is two steps (update the watches; rescan) with directory operations in between - and queries; TLC checks convergence (liveness under fairness) over every history of <=4/6 operations of the statement's list at every interleaving. Seeded behaviours and the counter-example schedules the model yields when a repair is switched off are executed on a real auto-refresh cache at three pacings (free; the recorded schedule enforced by blocking gates at watch.prelock, watch.updated and after the rescan; watcher held to the end) and the query API is polled until it equals a fresh cache. Each execution at the first two pacings is recorded through the hooks (file-system operations, receives, handler and operation snapshots of tracked map / directories in error / indexed content) and validated by TLC against CacheAutoTrace: some behaviour of the model must explain every event and snapshot.",
       AUTO_NOTE, "TLA+ model (CacheAuto) with liveness checked by TLC; behaviours and directed counter-example schedules replayed into a real auto-refresh cache through a scheduler gate; the recorded executions trace-validated against CacheAutoTrace", "5 C11, 4.2", "cacheauto")
 claim("C20", "model_checking",
       "Same model with Configure (new watcher and dirErrors map per configuration, goroutines keeping captured arguments, descriptor shortage): TLC checks ConfigureFresh, Bounded, Settles, WatchesOK and convergence over <=2/3 reconfigurations; behaviours are replayed on a real cache; a separate process performs 200/2000 reconfigurations watching inotify descriptors, kernel watches and goroutines, the reaction to changes in final vs dropped directories, descriptor exhaustion before/between reconfigurations and the default cache. The recorded executions (including every Configure with its snapshot) are validated by TLC against CacheAutoTrace.",
